@@ -96,7 +96,11 @@ def san_env(wd, leaks=False, extra=None):
     env["UBSAN_OPTIONS"] = "print_stacktrace=1:halt_on_error=1:log_path=%s" % lp
     env["LSAN_OPTIONS"] = "exitcode=23:log_path=%s" % lp
     if extra:
+        extra = dict(extra)
+        more = extra.pop("ASAN_EXTRA", None)     # appended to (not replacing) the ASan options above
         env.update(extra)
+        if more and "ASAN_OPTIONS" not in extra:
+            env["ASAN_OPTIONS"] += ":" + more
     return env
 
 
